@@ -53,6 +53,24 @@ UNIT = dict(
         assert!(idx == ideal || (on_boundary && idx + 1 == ideal) || near_integer(num, den, idx, left as u64));
     }
 
+    fn col_integer(cw: u16, dw: u16) {
+        // integer crops with concrete crop width / destination width (a symbolic divisor does not finish), every left, W and x
+        let view = FvDims { w: kani::any(), h: 1 };
+        let (left, x): (u16, u16) = (kani::any(), kani::any());
+        kani::assume(x < dw && left as u32 + cw as u32 <= view.w);
+        let b = CropBox { left: left as f64, top: 0., width: cw as f64, height: 1. };
+        let idx = fv_slice_x_in(b, dw as u32, 1, &view, x as u32) as u64;
+        let num = (2 * x as u64 + 1) * cw as u64;
+        let den = 2 * dw as u64;
+        let ideal = left as u64 + num / den;
+        kani::cover!(idx > 3 && x + 1 == dw);
+        assert!(idx == ideal || (num % den == 0 && idx + 1 == ideal));
+    }
+    #[kani::proof] fn g7_col_integer_crop_7_to_3() { col_integer(7, 3) }
+    #[kani::proof] fn g7_col_integer_crop_3_to_7() { col_integer(3, 7) }
+    #[kani::proof] fn g7_col_integer_crop_255_to_16() { col_integer(255, 16) }
+    #[kani::proof] fn g7_col_integer_crop_1000_to_37() { col_integer(1000, 37) }
+
     fn col_fractional(c4: u16, dw: u16) {
         // quarter-pixel crops: left = l4/4 (symbolic), width = c4/4 and dst width concrete (a symbolic divisor does not finish);
         // the ideal column is an exact integer quotient
@@ -169,7 +187,19 @@ UNIT = dict(
                  claim="exactly one row is produced, the row under the crop (a crop flush against the bottom edge included)"),
             dict(name="g7_col_in_bounds", kind="complete", covers=1, timeout=900, props=["C11", "C03"],
                  claim="for every crop box accepted by crop(), every W, dst_w, x < dst_w: the tabulated column is < W"),
-            dict(name="g7_col_is_pixel_under_centre", kind="complete", covers=1, timeout=1500, tier="thorough", props=["C11"],
+            dict(name="g7_col_integer_crop_7_to_3", kind="bounded", covers=1, timeout=900, tier="thorough", props=["C11"],
+                 bound="integer crop of width 7 -> 3 destination columns; EVERY left <= 65535, every source width, every x",
+                 claim="column == left + floor((2x+1)cw / 2dw) (either neighbour when the centre is exactly on a pixel edge)"),
+            dict(name="g7_col_integer_crop_3_to_7", kind="bounded", covers=1, timeout=900, tier="thorough", props=["C11"],
+                 bound="integer crop of width 3 -> 7 destination columns; EVERY left <= 65535, every source width, every x",
+                 claim="column == left + floor((2x+1)cw / 2dw) (either neighbour when the centre is exactly on a pixel edge)"),
+            dict(name="g7_col_integer_crop_255_to_16", kind="bounded", covers=1, timeout=900, tier="thorough", props=["C11"],
+                 bound="integer crop of width 255 -> 16 destination columns; EVERY left <= 65535, every source width, every x",
+                 claim="column == left + floor((2x+1)cw / 2dw) (either neighbour when the centre is exactly on a pixel edge)"),
+            dict(name="g7_col_integer_crop_1000_to_37", kind="bounded", covers=1, timeout=900, tier="thorough", props=["C11"],
+                 bound="integer crop of width 1000 -> 37 destination columns; EVERY left <= 65535, every source width, every x",
+                 claim="column == left + floor((2x+1)cw / 2dw) (either neighbour when the centre is exactly on a pixel edge)"),
+            dict(name="g7_col_is_pixel_under_centre", kind="complete", covers=1, timeout=1500, tier="dev", props=["C11"],
                  claim="for all integer crops (left, cw <= 65535), all dst_w <= 65535, all x: column == left + floor((2x+1)cw / 2dw) "
                        "(either neighbour when the centre is within 2^-30 of a pixel edge)"),
         ],
